@@ -12,7 +12,7 @@ HARNESS = os.path.join(VERIF, "harness")
 SPEC = os.path.join(VERIF, "spec")
 WORK = os.path.join(VERIF, "work")
 UVH = os.path.join(HARNESS, "target", "debug", "uvh")
-JAVA_OPTS = "-Xss1g -Dtlc2.tool.queue.IStateQueue=StateDeque -XX:+UseParallelGC"
+JAVA_OPTS = "-Xss1g -Dtlc2.tool.queue.IStateQueue=StateDeque"
 TLA_JAR = "/opt/veriftools/tla/tla2tools.jar"
 
 
@@ -180,7 +180,8 @@ def tlc(module, cfg, env_extra=None, workers=1, timeout_s=3600, extra=None, heap
     """Run TLC; returns dict(out, rc, distinct, generated, depth, violated, wall)."""
     md = workdir("tlc_%s_%s" % (os.path.basename(cfg).replace(".cfg", ""), hashlib.md5((cfg + str(env_extra) + str(time.time())).encode()).hexdigest()[:8]))
     env = dict(os.environ)
-    env["JAVA_TOOL_OPTIONS"] = JAVA_OPTS + " -Xmx" + heap
+    # single-worker runs (trace validation, up to 8 JVMs side by side) must not each start a GC thread per core
+    env["JAVA_TOOL_OPTIONS"] = JAVA_OPTS + (" -XX:ParallelGCThreads=%d" % (2 if workers == 1 else max(2, workers // 2))) + " -Xmx" + heap
     if env_extra:
         env.update(env_extra)
     cmd = ["java", "-cp", TLA_JAR + ":/opt/veriftools/tla/CommunityModules-deps.jar", "tlc2.TLC"]
@@ -226,7 +227,7 @@ def tlc(module, cfg, env_extra=None, workers=1, timeout_s=3600, extra=None, heap
     return res
 
 
-_BAD_RE = re.compile(r'<<"(C\d+)",\s*"([^"]+)",\s*(\d+)>>')
+_BAD_RE = re.compile(r'<<"(C\d+|CONF)",\s*"([^"]+)",\s*(\d+)>>')
 
 
 def parse_bad(out):
